@@ -399,6 +399,65 @@ def rand_hermitian_iop(rng, of, n, cplx, density):
     return of.InteractionOperator(const, one, two)
 
 
+def elementwise_hermitian(two):
+    two = numpy.asarray(two)
+    return bool(numpy.array_equal(two, numpy.conj(numpy.transpose(two, (3, 2, 1, 0)))))
+
+
+def noncanonical(rng, two, cplx, force=True):
+    """move weight between the antisymmetry-related entries of a two-body tensor IN PLACE without changing the
+    operator it denotes (a†_p a†_q a_r a_s = -a†_q a†_p a_r a_s = -a†_p a†_q a_s a_r = a†_q a†_p a_s a_r):
+      * a stored entry T[pqrs] = v is moved, entirely or in part, to -T[qprs] / -T[pqsr] / +T[qpsr]
+        (so a Hermitian pair T[pqrs] = c, T[srqp] = c* becomes e.g. T[pqrs] = c, T[rsqp] = -c*),
+      * a common weight w is added to T[pqrs] and T[qprs] (or T[pqsr]),
+      * entries with p = q or r = s (which multiply a zero operator) receive arbitrary values.
+    The result is in general NOT Hermitian element by element although the operator is.  Dyadic values only.
+    Returns the number of modifications."""
+    n = two.shape[0]
+    if n < 2:
+        return 0
+    done = 0
+
+    def val():
+        return dy(rng, cplx) or 0.5
+
+    def images(idx):
+        p, q, r, s = idx
+        return [((q, p, r, s), -1), ((p, q, s, r), -1), ((q, p, s, r), 1)]
+
+    nz = [tuple(int(z) for z in idx) for idx in numpy.argwhere(two != 0)]
+    nz = [idx for idx in nz if idx[0] != idx[1] and idx[2] != idx[3]]
+    rng.shuffle(nz)
+    for k, idx in enumerate(nz[:8]):
+        if not (rng.random() < 0.6 or (force and k == 0)):
+            continue
+        v = two[idx]
+        tgt, sg = rng.choice(images(idx))
+        part = v if rng.random() < 0.6 else v / 2
+        two[idx] -= part
+        two[tgt] += sg * part
+        done += 1
+    for _ in range(rng.randint(1, 3)):
+        p, q = rng.sample(range(n), 2)
+        r, s = rng.randrange(n), rng.randrange(n)
+        w = val()
+        if rng.random() < 0.5:
+            two[p, q, r, s] += w
+            two[q, p, r, s] += w
+        else:
+            two[r, s, p, q] += w
+            two[r, s, q, p] += w
+        done += 1
+    for _ in range(rng.randint(0, 2)):
+        p, r, s = rng.randrange(n), rng.randrange(n), rng.randrange(n)
+        if rng.random() < 0.5:
+            two[p, p, r, s] = val()
+        else:
+            two[r, s, p, p] = val()
+        done += 1
+    return done
+
+
 def flat(a):
     return [to_gq(x) for x in numpy.asarray(a).reshape(-1)]
 
@@ -406,8 +465,11 @@ def flat(a):
 def stream_tensors(ctx):
     of = ctx.of
     jw = of.transforms.jordan_wigner
-    st = Stream('interaction-dch', 'seeded random Hermitian InteractionOperators (real and complex, two_body[pqrs] = '
-                'conj(two_body[srqp]) and no other symmetry, dense and sparse, n <= 4 quick / 5 thorough) and '
+    st = Stream('interaction-dch', 'seeded random Hermitian InteractionOperators (real and complex, no symmetry beyond '
+                'Hermiticity, dense and sparse, n <= 4 quick / 5 thorough; 60% stored with two_body[pqrs] = '
+                'conj(two_body[srqp]) element by element, 40% in NON-canonical storage: weight moved between the '
+                'antisymmetry-related entries T[pqrs] / -T[qprs] / -T[pqsr] / T[qpsr] and arbitrary values on '
+                'entries with p = q or r = s, so that only the denoted operator is Hermitian) and '
                 'DiagonalCoulombHamiltonians (n <= 5, complex Hermitian T, real symmetric V with non-zero diagonal); '
                 'Model compared exactly; Spec oracle against the tensor formula written out term by term; compared '
                 'exactly with jordan_wigner(get_fermion_operator(.)); distinct = distinct tensors')
@@ -421,11 +483,17 @@ def stream_tensors(ctx):
         cplx = rng.random() < 0.6
         density = rng.choice([0.08, 0.3, 1.0]) if n >= 3 else rng.choice([0.5, 1.0])
         iop = rand_hermitian_iop(rng, of, n, cplx, density)
+        storage = 'elementwise-hermitian'
+        if n >= 2 and k % 5 in (1, 3):
+            # the same Hermitian operator in non-canonical storage (weight moved between antisymmetry-related entries)
+            noncanonical(rng, iop.two_body_tensor, cplx)
+            storage = 'elementwise-hermitian' if elementwise_hermitian(iop.two_body_tensor) else 'non-canonical'
         one, two = flat(iop.one_body_tensor), flat(iop.two_body_tensor)
         const = to_gq(iop.constant)
         case = {'fn': 'jordan_wigner', 'interaction_operator': {'n': n, 'constant': const, 'one': one, 'two': two}}
         st.case(case)
         st.count('iop:n=%d:%s' % (n, 'complex' if cplx else 'real'))
+        st.count('iop:storage:' + storage)
         ok, Q = call(st, 'jordan_wigner(InteractionOperator)', case, lambda: jw(iop))
         if not ok:
             continue
@@ -766,18 +834,74 @@ def herm_tensors(rng, n, cplx, density, integer=False):
 
 
 ARRAY_KINDS = ['float64', 'complex128', 'complex64', 'float32', 'int64', 'int32', 'fortran-complex128',
-               'fortran-float64']
+               'fortran-float64', 'clongdouble', 'longdouble', 'fortran-complex64']
+
+# tensor dtypes whose scalars are / are not instances of Python complex / float (complex64 and clongdouble are not)
+COMPLEX_KINDS = ['complex64', 'clongdouble', 'complex128', 'fortran-complex64']
+
+
+def is_complex_kind(kind):
+    return 'complex' in kind or 'clongdouble' in kind
 
 
 def cast(arr, kind):
     a = numpy.asarray(arr)
-    if kind.startswith('fortran-'):
-        dt = kind.split('-')[1]
-        a = a.real if not dt.startswith('complex') else a
-        return numpy.asfortranarray(a.astype(dt))
-    if not kind.startswith('complex'):
+    if not is_complex_kind(kind):
         a = a.real
+    if kind.startswith('fortran-'):
+        return numpy.asfortranarray(a.astype(kind.split('-')[1]))
     return numpy.ascontiguousarray(a.astype(kind))
+
+
+QUARTIC_STORAGE = ['canonical', 'partner-moved', 'mixed']
+
+
+def quartic_tensors(rng, n, cplx, storage, background=0.04):
+    """sparse Hermitian tensors (complex128 arrays, dyadic entries exact in float32) for n >= 4 that are guaranteed
+    to contain
+      * a two-body entry on FOUR DISTINCT modes with non-zero real AND imaginary part (when cplx),
+      * a number-excitation entry (three distinct modes) and a hopping with non-zero imaginary part (when cplx);
+    storage = 'canonical'     : T[srqp] = conj T[pqrs] element by element;
+              'partner-moved' : the Hermitian partner of the quartic entry is stored on an antisymmetry-related
+                                entry, e.g. T[pqrs] = c, T[rsqp] = -conj(c) — Hermitian operator, non-Hermitian storage
+                                (for real c: a real non-symmetric tensor);
+              'mixed'         : additionally weight moved at random between antisymmetry-related entries (noncanonical)"""
+    one, two = herm_tensors(rng, n, cplx, background)
+
+    def val(c):
+        re = rng.choice([-3, -2, -1, 1, 2, 3]) / 2 ** rng.randint(0, 2)
+        if not c:
+            return re
+        return complex(re, rng.choice([-3, -2, -1, 1, 2, 3]) / 2 ** rng.randint(0, 2))
+
+    def clear(idx):
+        a, b, c, d = idx
+        for z in ((a, b, c, d), (a, b, d, c), (b, a, d, c), (b, a, c, d)):
+            two[z] = 0
+            two[z[::-1]] = 0
+
+    p, q, r, s = rng.sample(range(n), 4)
+    clear((p, q, r, s))
+    v = val(cplx)
+    two[p, q, r, s] = v
+    if storage == 'canonical':
+        two[s, r, q, p] = numpy.conj(v)
+    else:
+        tgt, sg = rng.choice([((r, s, q, p), -1), ((s, r, p, q), -1), ((r, s, p, q), 1)])
+        two[tgt] = sg * numpy.conj(v)
+    i3, j3, k3 = rng.sample(range(n), 3)
+    idx = rng.choice([(i3, j3, k3, i3), (j3, i3, i3, k3), (i3, j3, i3, k3)])
+    clear(idx)
+    w = val(cplx)
+    two[idx] = w
+    two[idx[::-1]] = numpy.conj(w)
+    a, c = rng.sample(range(n), 2)
+    h = val(cplx)
+    one[a, c] = h
+    one[c, a] = numpy.conj(h)
+    if storage == 'mixed':
+        noncanonical(rng, two, cplx)
+    return one, two
 
 
 def sparse_spec_op(const, one, two):
@@ -895,12 +1019,17 @@ def stream_hardening(ctx):
     st = Stream('hardening', '(S) every path is called twice around an in-place modification of its first result, '
                 'arguments are snapshotted before / after (including the arrays inside tensor objects), objects edited in '
                 'place (+=, *=, array assignment) are re-transformed and compared with a freshly built equal object; '
-                '(T) tensors as float64 / complex128 / complex64 / float32 / int64 / int32 / Fortran-ordered arrays, '
+                '(T) tensors as float64 / complex128 / complex64 / clongdouble / longdouble / float32 / int64 / int32 / '
+                'Fortran-ordered arrays, every complex dtype with a guaranteed four-distinct-mode entry, a number-excitation '
+                'entry and a hopping with non-zero imaginary parts (n = 4, 5), '
                 'helper coefficients as Python int / float / complex / bool and numpy scalar types, numpy scalars placed '
                 'into .terms (a type this tree rejects is excluded and counted, never an alarm); (B) dyadic entries of '
                 'magnitude 2e-6 .. 9e-5 next to O(1) ones in FermionOperators, InteractionOperators and '
                 'DiagonalCoulombHamiltonians, sizes 9 .. 20, indices >= 257; (A) complex constants, purely imaginary '
-                'entries, non-Hermitian tensors (Model comparison only), both operand orders.  Everything is compared '
+                'entries, non-Hermitian tensors (Model comparison only), Hermitian operators in NON-canonical storage '
+                '(Hermitian partner stored on an antisymmetry-related entry with the opposite sign, weight split between '
+                'T[pqrs] / -T[qprs] / -T[pqsr] / T[qpsr], junk on p = q / r = s entries; oracle = the operator the stored '
+                'tensor denotes), both operand orders.  Everything is compared '
                 'exactly with the Model and, where the input is admissible, with the Spec oracle; '
                 'distinct = distinct (check, input)')
     b = Batch(ctx, st)
@@ -1001,7 +1130,7 @@ def stream_hardening(ctx):
     for rep in range(reps):
         for kind in ARRAY_KINDS:
             n = rng.choice([2, 3, 3, 4])
-            real = not kind.endswith('complex128') and not kind.endswith('complex64')
+            real = not is_complex_kind(kind)
             integer = kind.startswith('int')
             one, two = herm_tensors(rng, n, not real, rng.choice([0.3, 1.0]), integer)
             const = rng.choice([0.0, 1.5, 0.5 - 0.25j, 2j])
@@ -1057,11 +1186,44 @@ def stream_hardening(ctx):
                   {'op': 'c04.iop', 'n': n, 'constant': to_gq(0.5j), 'one': flat(one), 'two': flat(two)})
     b.flush()
 
+    # ---- (T)(A) complex four-distinct-mode entries in every complex dtype (complex64 / clongdouble scalars are not
+    #      Python complex); Hermitian operators whose STORAGE is not Hermitian element by element
+    for rep in range(2 * reps):
+        for ki, kind in enumerate(COMPLEX_KINDS + ['float64', 'float32']):
+            n = rng.choice([4, 4, 5])
+            storage = QUARTIC_STORAGE[(rep + ki) % len(QUARTIC_STORAGE)]
+            one, two = quartic_tensors(rng, n, is_complex_kind(kind), storage)
+            const = rng.choice([0.0, 1.5, 0.5 - 0.25j])
+            c1, c2 = cast(one, kind), cast(two, kind)
+            s1, s2 = c1.copy(), c2.copy()
+            ok, iop = soft(st, 'InteractionOperator:' + kind, lambda: of.InteractionOperator(const, c1, c2))
+            if not ok:
+                continue
+            j1, j2, jc = flat(iop.one_body_tensor), flat(iop.two_body_tensor), to_gq(const)
+            case = {'fn': 'jordan_wigner', 'interaction_operator': {'n': n, 'constant': jc, 'one': j1, 'two': j2},
+                    'array_type': kind, 'storage': storage}
+            st.case(case)
+            ok, Q = soft(st, 'jw(InteractionOperator):' + kind, lambda: jw(iop))
+            if not ok:
+                continue
+            st.count('quartic-entry:%s:%s' % (kind, storage))
+            st.count('storage:' + ('elementwise-hermitian' if elementwise_hermitian(s2) else 'non-canonical'))
+            jQ = enc_op('qubit', Q.terms)
+            b.add('jordan_wigner(InteractionOperator[%s], %s storage)' % (kind, storage), case, jQ,
+                  {'op': 'c04.iop', 'n': n, 'constant': jc, 'one': j1, 'two': j2},
+                  oracle('fermion', n, ['op', sparse_spec_op(const, s1, s2)], jQ))
+            ok, QF = soft(st, 'jw(get_fermion_operator(iop)):' + kind, lambda: jw(of.transforms.get_fermion_operator(iop)))
+            if ok and canon_nz(jQ) != canon_nz(enc_op('qubit', QF.terms)):
+                st.violate('InteractionOperator path differs from the FermionOperator path (%s, %s storage)'
+                           % (kind, storage), case, {'fast': jQ, 'fermion_path': enc_op('qubit', QF.terms)})
+    b.flush()
+
     # ---- (T)(B)(S) DiagonalCoulombHamiltonian: one_body of every float / complex type, band entries
     for rep in range(2 * reps):
-        for kind in ['complex128', 'complex64', 'float64', 'float32', 'fortran-complex128', 'fortran-float64', 'int64']:
+        for kind in ['complex128', 'complex64', 'float64', 'float32', 'fortran-complex128', 'fortran-float64', 'int64',
+                     'clongdouble']:
             n = rng.randint(2, 4)
-            real = 'complex' not in kind
+            real = not is_complex_kind(kind)
             one, _ = herm_tensors(rng, n, not real, 1.0, kind == 'int64')
             two = numpy.zeros((n, n))
             for p in range(n):
